@@ -44,7 +44,7 @@ m = {
     }],
     "checks": checks,
     "not_applicable": na,
-    "notes": "Runtime monitoring only. Exit 0 = held on everything explored, 1 = VIOLATION line(s) with replay files under /verif/replays, 2 = inconclusive (never a VIOLATION). Known findings: /verif/known_findings.json.",
+    "notes": "Runtime monitoring only. Exit 0 = held on everything explored, 1 = VIOLATION line(s) with replay files under /verif/replays, 2 = inconclusive (never a VIOLATION). Known findings: /verif/known_findings.json (9 repaired defects, none open). The level texts name the main workload classes; the complete, current list of classes per check is the `rule` text in /verif/checks_config.py, which every run copies into coverage.rule of its evidence file. Seeded changes used to measure sensitivity: /verif/seeded (317 kept, DESIGN.md section 10.5).",
 }
 json.dump(m, open(os.path.join(VERIF, "MANIFEST.json"), "w"), indent=1)
 print(f"MANIFEST.json: {len(checks)} checks, {len(na)} not_applicable")
